@@ -288,6 +288,24 @@ func (rw *rewriter) syncMethod(call *ast.CallExpr) (typ, method string, recv ast
 	return named.Obj().Name(), fn.Name(), x, isPtr, true
 }
 
+// calleeFunc returns the function or method a call invokes (nil for builtins, conversions,
+// function values).
+func (rw *rewriter) calleeFunc(call *ast.CallExpr) *types.Func {
+	switch f := call.Fun.(type) {
+	case *ast.Ident:
+		fn, _ := rw.info.Uses[f].(*types.Func)
+		return fn
+	case *ast.SelectorExpr:
+		if sel := rw.info.Selections[f]; sel != nil {
+			fn, _ := sel.Obj().(*types.Func)
+			return fn
+		}
+		fn, _ := rw.info.Uses[f.Sel].(*types.Func)
+		return fn
+	}
+	return nil
+}
+
 func addr(x ast.Expr, isPtr bool) ast.Expr {
 	if isPtr {
 		return x
@@ -535,6 +553,23 @@ func (rw *rewriter) postCall(c *astutil.Cursor, n *ast.CallExpr) {
 				c.Replace(&ast.CallExpr{Fun: &ast.SelectorExpr{X: ast.NewIdent("simnet"), Sel: ast.NewIdent(fn)}, Args: n.Args})
 				return
 			}
+		}
+	}
+	// sync/atomic functions and methods: a yield right after the operation, so that a
+	// check-then-act sequence built from atomics (Load ... Add) can be interleaved
+	if fn := rw.calleeFunc(n); fn != nil && fn.Pkg() != nil && fn.Pkg().Path() == "sync/atomic" {
+		if sig, isSig := fn.Type().(*types.Signature); isSig {
+			rw.needRT = true
+			rw.stats["atomic."+fn.Name()]++
+			site := rw.site(n.Pos())
+			inner := &ast.CallExpr{Fun: n.Fun, Args: n.Args, Ellipsis: n.Ellipsis}
+			if sig.Results().Len() == 0 {
+				lit := &ast.FuncLit{Type: &ast.FuncType{Params: &ast.FieldList{}}, Body: &ast.BlockStmt{List: []ast.Stmt{&ast.ExprStmt{X: inner}}}}
+				c.Replace(rw.call("AtomicVoid", site, lit))
+			} else if sig.Results().Len() == 1 {
+				c.Replace(rw.call("AtomicAfter", site, inner))
+			}
+			return
 		}
 	}
 	// sync methods
